@@ -215,6 +215,8 @@ def build(choice, name=None):
 
     if fk == "dmz_s0":
         setrule((0, 1), [srvs[0]])
+    elif fk == "dmz_s1":          # not an axis value: used by the large scenarios only
+        setrule((0, 1), [s1])
     elif fk == "asym":
         for (i, j) in list(fw):
             if 0 < i < j:
@@ -422,6 +424,9 @@ def scale_specs(tier):
        fw="split")
     mk("scale-rev-two-public", 14, shape="2-3-2-3", topo="two_public", host_order="reversed", discovery="zero",
        fw="second_public_only", sensitive="same_subnet")
+    # > 1000 tensor cells (str(tensor) is abbreviated by NumPy beyond that), YAML-expressible, host firewalls
+    mk("scale-12-12-12", 12, shape="12-12-12", topo="chain", sw="2os2s2p", exploits="e0e3", privescs="two",
+       discovery="zero", sensitive="two_subnets", hostfw="deny_pivot", fw="dmz_s1")
     if tier == "thorough":
         mk("scale-1-70", 16, shape="1-70", topo="chain", sw="1os1s1p", exploits="e0", hostfw="none", discovery="one",
            sensitive="last")
@@ -429,8 +434,6 @@ def scale_specs(tier):
            sensitive="last")
         mk("scale-11x11", 10, shape="11-1-1-1-1-1-1-1-1-1-1", topo="chain", sw="1os1s1p", exploits="e0", hostfw="none",
            discovery="zero", sensitive="last")
-        mk("scale-12-12-12", 10, shape="12-12-12", topo="chain", sw="2os2s2p", exploits="e0e1", privescs="two",
-           discovery="zero", sensitive="two_subnets", hostfw="deny_pivot")
         mk("scale-130", 10, shape="65-65", topo="chain", sw="1os1s1p", exploits="e0", hostfw="none", discovery="zero",
            sensitive="last")
     return out
